@@ -51,6 +51,26 @@ Proof. exact train_updates_once_full. Qed.
 Goal True. idtac "ASSUMPTIONS train_updates_once". Abort.
 Print Assumptions train_updates_once.
 
+(* boundary momenta: momentum = 0.0 freezes the running statistics (it is NOT the cumulative rule of momentum=None:
+   the branch is on `is None`), momentum = 1.0 replaces them by the batch statistics; the counter still advances *)
+Theorem momentum_zero_freezes_one_replaces :
+  forall o s x m v f,
+    training s = true -> track o = true -> momentum o = Some f ->
+    rmean s = Some m -> rvar s = Some v ->
+    length m = length x -> length v = length x -> (2 <= nsamp x)%nat ->
+    exists rm' rv',
+      forward o s x = Done {| rmean := Some rm'; rvar := Some rv'; nbt := S (nbt s); training := true |}
+                           (normalise x (batch_means x) (batch_vars x) (eps o)) /\
+      forall c xs, nth_error x c = Some xs ->
+        (forall old, nth_error m c = Some old ->
+           exists new, nth_error rm' c = Some new /\ (f == 0 -> new == old) /\ (f == 1 -> new == mean xs)) /\
+        (forall old, nth_error v c = Some old ->
+           exists new, nth_error rv' c = Some new /\ (f == 0 -> new == old) /\
+                       (f == 1 -> new == var_b xs * (qnat (nsamp x) / (qnat (nsamp x) - 1)))).
+Proof. exact momentum_boundaries. Qed.
+Goal True. idtac "ASSUMPTIONS momentum_zero_freezes_one_replaces". Abort.
+Print Assumptions momentum_zero_freezes_one_replaces.
+
 (* var_b * n/(n-1) is Bessel's unbiased estimator  sum (x - mean)^2 / (n - 1) *)
 Theorem running_var_is_unbiased :
   forall l, (2 <= length l)%nat ->
